@@ -63,6 +63,27 @@ Theorem C03_psd_nonneg dt minR (p : pin Rops) :
 Proof. exact (stored_classes dt minR p). Qed.
 Print Assumptions C03_psd_nonneg.
 
+(* one step of one phase as the code performs it: _processX empties the classes below the thresholds of the state it is HANDED
+   (after a re-mesh the stored distribution can hold particles there), the flux step starts from that state, _processX again.
+   Both distributions are non-negative, keep the number of classes, and the zeroing never adds particles *)
+Theorem C03_step_distribution_nonneg dt minR (p : pin Rops) : pin_wf p -> 0 < dt ->
+  nonneg (startX Rops minR p) /\ nonneg (newX Rops dt minR p) /\
+  length (newX Rops dt minR p) = length (p_psd Rops p) /\
+  sumR (startX Rops minR p) <= sumR (p_psd Rops p).
+Proof.
+  exact (fun Hwf Hdt => conj (startX_nonneg minR p Hwf) (conj (newX_nonneg dt minR p Hwf Hdt)
+          (conj (newX_length dt minR p Hwf) (startX_le minR p Hwf)))).
+Qed.
+Print Assumptions C03_step_distribution_nonneg.
+
+(* ... and (explicit Euler) the recorded number density exceeds that of the STORED distribution by at most rate * step *)
+Theorem C03_full_step_density_bound dt minR (p : pin Rops) g : pin_wf p -> incr (p_bounds Rops p) -> 0 < dt ->
+  length g = S (length (p_psd Rops p)) ->
+  p_nf Rops p = netFlux Rops (p_bounds Rops p) (startX Rops minR p) g ->
+  sumR (newX Rops dt minR p) <= sumR (p_psd Rops p) + dt * p_nucRate Rops p.
+Proof. exact (full_step_density_bound dt minR p g). Qed.
+Print Assumptions C03_full_step_density_bound.
+
 (* ---- recorded statistics ------------------------------------------------------------------------------------ *)
 Theorem C03_fractions_bounded dt minR minDens (p : pin Rops) : pin_wf p -> 0 < dt -> 0 < minDens ->
   let o := phaseBalance Rops minDens (phaseIn Rops dt minR p) in
